@@ -316,5 +316,32 @@ def run(chk, prog):
     if memo_hits:
         raise AnalysisBroken("ElectricField keeps a table keyed on a request parameter (%s): whether the cached and the recomputed table agree for every "
                              "sequence of requests is not decided by this check" % "; ".join(sorted(set(memo_hits))))
+    # ---- R5: nothing the field computes once, at construction, depends on the profile it is constructed on ---------------------------------------
+    # a freshly constructed field and a long-lived one differ exactly in what construction read: every call on the phase space made by the
+    # constructors and the set-up helpers may read geometry and configuration only, never the grid data or anything derived from it
+    from .. import effects as Ef
+    eff5 = Ef.Effects(prog)
+    PROFILE = {"_data", "_projection", "_integral", "_filling", "_moment", "_rms"}
+    n5 = 0
+    for f_ in m.setup:
+        roots = ([f_["body"]] if f_.get("body") else []) + [i_["expr"] for i_ in f_.get("inits", []) if isinstance(i_.get("expr"), dict)]
+        for r_ in roots:
+            for x in A.walk(r_):
+                if x.get("k") != "CXXMemberCallExpr" or not (x.get("callee") or "").startswith("vfps::PhaseSpace::"):
+                    continue
+                callee = [c_ for c_ in prog.fns(x["callee"]) if c_.get("body")]
+                if not callee:
+                    continue
+                rd = set()
+                for c_ in callee:
+                    try:
+                        rd |= {fld for (o_, fld, sel_) in eff5.summary(c_, "vfps::PhaseSpace").reads if o_ == "this"}
+                    except Exception:
+                        rd |= {"?"}
+                bad = sorted(rd & PROFILE)
+                n5 += 1
+                chk.check(not bad and "?" not in rd, "R5", A.loc(f_, x), "construction calls %s(), which reads no grid data and nothing derived from it (%s)"
+                          % (x["callee"].split("::")[-1], bad or "geometry/configuration only"), "ctor-reads-profile:%s:%s" % (x["callee"].split("::")[-1], bad))
+    chk.floor("R5-construction-calls-on-the-phase-space", n5, 3)
     chk.notes.append("C18: dirty/read/rewrite footprints of every work buffer for every ordered pair of operations "
                      "(updateCSR, wakePotential, padBunchProfiles); accumulation resets; plan/buffer binding only at construction.")
